@@ -127,7 +127,8 @@ class ContextMixin(object):
         def decorator(f):
             # Extract any positional and positional-and-key-word arguments
             # which may be set.
-            arg_names, varargs, keywords, defaults = inspect.getargspec(f)
+            arg_names, varargs, keywords, defaults = \
+                inspect.getfullargspec(f)[:4]
 
             # Sanity check: non-keyword-only arguments should't be present in
             # the keyword-only-arguments list.
